@@ -38,6 +38,17 @@ def run(ctx):
         from vlib import Undecided
         raise Undecided("the Pool model does not distinguish a double put (vacuous model)")
 
+    # shared objects (unit registry, lazily initialised Wishart): the implementation-shaped model is
+    # linearizable; the unlocked / un-onced mutants of the model must be distinguished (non-vacuity)
+    ctx.tlc("conc/SharedObj.tla", "conc/SharedObj.cfg", subst=dict(NG=4 if th else 3, LOCKED="TRUE", ONCE="TRUE"),
+            name="R1 SharedObj registry under its lock + once-initialised object")
+    for lk, on, inv in (("FALSE", "TRUE", "UniqueSymbols"), ("TRUE", "FALSE", "NoZeroRead")):
+        st = ctx.tlc("conc/SharedObj.tla", "conc/SharedObj.cfg", subst=dict(NG=3, LOCKED=lk, ONCE=on),
+                     name="R1 SharedObj mutant LOCKED=%s ONCE=%s (must violate %s)" % (lk, on, inv), expect_fail=True)
+        if st["ok"] or ("%s is violated" % inv) not in st.get("output_tail", ""):
+            from vlib import Undecided
+            raise Undecided("the SharedObj model does not distinguish its mutant (vacuous model)")
+
     # ---- R3: hook logs of real executions --------------------------------------------------
     mz.r3(ctx, th, b, "default", "C09")
     procs = "1,2,4,16"
@@ -59,12 +70,33 @@ def run(ctx):
         ctx.violation("conc:trace-rejected:" + what, st.get("detail", "")[:900],
                       {"trace": dst, "spec": "conc/ForkJoinTrace.tla", "cfg": {}})
 
+    # shared objects: linearizability of recorded concurrent executions
+    tr2 = os.path.join(ctx.work, "shared.ndjson")
+    summ = ctx.record(b, "shared", tr2, ["procs=" + procs, "runs=%d" % (40 if th else 12)], name="R3 record shared objects (unit registry, Wishart, card)", timeout=1500)
+    ok, st = ctx.validate("conc/SharedObjTrace.tla", "conc/SharedObjTrace.cfg", tr2, name="R3 linearizability of shared-object runs", timeout=1500, dfs=True)
+    if ok:
+        n = summ.get("traces", 0)
+        ctx.traces += n
+        ctx.cases += n
+        ctx.nontrivial += summ.get("extra", {}).get("runs_with_overlap", 0)
+    else:
+        keep = os.path.join(os.path.dirname(ctx.work), "..", "replays", "C09")
+        os.makedirs(keep, exist_ok=True)
+        dst = os.path.abspath(os.path.join(keep, "shared-seed%d.ndjson" % ctx.seed))
+        shutil.copy(tr2, dst)
+        m = re.search(r"furthest run \d+ \(([A-Za-z./ ]+?)[ ,]", st.get("detail", ""))
+        what = m.group(1).strip().replace(" ", "-") if m else "unknown"
+        ctx.violation("conc:not-linearizable:" + what, st.get("detail", "")[:900],
+                      {"trace": dst, "spec": "conc/SharedObjTrace.tla", "cfg": {}, "dfs": True})
+
     # ---- race detector pass (trusted external monitor; pure-Go kernels, tracer off) ---------
     rb = ctx.build("race noasm")
     logp = os.path.join(ctx.work, "race")
     env = {"GORACE": "log_path=%s exitcode=0 halt_on_error=0" % logp}
     ctx.record(rb, "conc", os.path.join(ctx.work, "null1.ndjson"), ["notrace", "procs=4,16", "reps=1"],
                name="race pass: gemm/quad/jacobian/pools [race noasm]", env=env, timeout=1500)
+    ctx.record(rb, "shared", os.path.join(ctx.work, "null3.ndjson"), ["notrace", "procs=4,16", "runs=4"],
+               name="race pass: shared objects [race noasm]", env=env, timeout=1500)
     ctx.record(rb, "minimize", os.path.join(ctx.work, "null2.ndjson"), ["notrace"] + (["thorough"] if th else []),
                name="race pass: minimize [race noasm]", env=env, timeout=1500)
     races = 0
@@ -105,7 +137,7 @@ def replay(ctx, path):
     if "trace" in d:
         if "Minimize" in d["spec"]:
             return _load("_minimize").replay_trace(ctx, d, "C09")
-        ok, st = ctx.validate(d["spec"], d["spec"].replace(".tla", ".cfg"), d["trace"])
+        ok, st = ctx.validate(d["spec"], d["spec"].replace(".tla", ".cfg"), d["trace"], dfs=bool(d.get("dfs")))
         print("trace accepted" if ok else "trace rejected: " + st.get("detail", "")[:1200])
         if not ok:
             print("VIOLATION property=C09 replay=%s" % path)
